@@ -712,11 +712,8 @@ class WireWorld(World):
                 ctx.sched.ev("bad", i, bad, "ProtocolError")
             except Exception as x:  # noqa
                 ctx.sched.ev("bad", i, bad, type(x).__name__)
-                if bad == "keylen":
-                    ctx.violate("unexpected-exception-class", "sender-bad-key",
-                                "case %d: annotation key of wrong length raised %r instead of ProtocolError" % (i, x))
-                else:
-                    ctx.probe("sender_str_value")
+                # any error refuses the unbuildable message; the statement does not fix the class
+                ctx.probe("sender_bad_key" if bad == "keylen" else "sender_str_value")
             else:
                 ctx.sched.ev("bad", i, bad, "built")
                 ctx.violate("invalid-annotation-accepted-by-sender", bad,
@@ -820,9 +817,8 @@ class WireWorld(World):
         if consumed is not None and consumed > 40:
             ctx.violate("oversize-body-read", "", "case %d %s: %d bytes of an oversize message were read before %r"
                         % (i, where, consumed, x))
-        elif not isinstance(x, E.ProtocolError):
-            ctx.violate("unexpected-exception-class", "oversize-receiver", "case %d %s: oversize message refused with %r" % (i, where, x))
         else:
+            # refused without reading the body: that is what the statement demands (it does not name an exception class)
             ctx.probe("oversize_receiver")
             ctx.nontrivial = True
 
